@@ -306,8 +306,19 @@ int main(int argc, char** argv) {
                         f << kv.second->s;
                     }
                 }
+                // "entry_style": how the host spells the entry path - absolute (default), relative to the working directory, or relative
+                // with redundant './' and 'x/../' components. Which file that is does not depend on the spelling.
+                std::string entryPath = (dir / entry).string();
+                if (job->has("entry_style")) {
+                    const std::string& st = job->at("entry_style").s;
+                    fs::path rel = fs::relative(dir / entry, fs::current_path());
+                    if (st == "relative")
+                        entryPath = rel.string();
+                    else if (st == "dotted")
+                        entryPath = (fs::path(".") / rel.parent_path() / "." / rel.filename()).string();
+                }
                 try {
-                    program = loader.load((dir / entry).string());
+                    program = loader.load(entryPath);
                 } catch (...) {
                     fs::current_path(oldCwd);
                     throw;
